@@ -37,8 +37,11 @@ def odd_plants(rng, hist_dirs=("a.task.100", "pk/b.task.101")):
 
 
 def scenario(rng, k):
-    proj = G.base_project(rng)
+    git = k % 2 == 1
+    proj = G.base_project(rng, git=git)
     steps = [G.run_step(rng, 100, again=False, p_fail=0.15)]
+    if git and rng.random() < 0.7:
+        steps.append({"cmd": "git", "ops": [["checkout", 0]] + ([["dirty"]] if rng.random() < 0.5 else [])})
     for _ in range(rng.randrange(0, 3)):
         steps.append(G.run_step(rng, 150 + 10 * len(steps), target=rng.choice(["//:all", "//:a", "//pk:b", "//:d"]),
                                 again=True, p_fail=0.2))
@@ -52,7 +55,10 @@ def scenario(rng, k):
     steps.append({"cmd": "restore", "argv": ["restore", "../A.tar.gz"], "archive": "../A.tar.gz", "project": "p2",
                   "if_exists": "../A.tar.gz"})
     steps.append({"cmd": "roundtrip", "project": "p2", "sel": sel, "if_exists": "../A.tar.gz"})
-    return {"project": proj, "steps": steps, "tag": [k, task, latest]}
+    scn = {"project": proj, "steps": steps, "tag": [k, task, latest]}
+    if git:
+        scn["git"] = {"commits": 2, "dirty": rng.random() < 0.5}
+    return scn
 
 
 def sig(scn, h, st, clause):
